@@ -20,7 +20,8 @@ def run(ctx):
     # statement's right-hand side names them)
     from .restate import run_restated
     run_restated(ctx, [("C08", {"C08-a": "U = det L with L[a,b] = Σ x s s", "C08-b": "result.u is that determinant"}),
-                       ("C09", {"C09-a": "u vectors u_l = Σ_e x_e s[e,l] p_e", "C09-b": "v = Σ x(m²+p²) − uᵀL⁻¹u"})])
+                       ("C09", {"C09-a": "u vectors u_l = Σ_e x_e s[e,l] p_e", "C09-b": "v = Σ x(m²+p²) − uᵀL⁻¹u",
+                                "C09-e": "the Vector primitives u and V are written in are componentwise over all D components"})])
 
     # the formulas above are written in the scalar type's own operations; for the f64 instantiation those are decided by C20-a — restated
     # here for exactly the operations this code calls: a `powf` / `sqrt` / `cos` of `impl MomTropFloat for f64` that is not std's breaks
